@@ -104,7 +104,10 @@ impl Registry {
                 return Some(name.to_owned());
             }
         }
-        None
+        // A unit without a recorded definition, like the long prefixes
+        // that can stand alone (`peta`). It is its own canonical name,
+        // and must not be read as a prefix and a unit (`p` + `eta`).
+        Some(name.to_owned())
     }
 
     fn canonicalize_with_prefix(&self, name: &str) -> Option<String> {
